@@ -33,6 +33,9 @@ func init() {
 		"return", "short", "static", "super", "switch", "synchronized", "this", "throw", "throws", "transient",
 		"true", "try", "typeof", "undefined", "using", "var", "void", "volatile", "while", "with", "yield",
 	}
+	// Global objects that generated code refers to by name (println compiles
+	// to console.log): a Go identifier of the same name must not capture them.
+	keywords = append(keywords, "console", "Number")
 	for _, keyword := range keywords {
 		reservedKeywords[keyword] = true
 	}
